@@ -93,6 +93,12 @@ def handle_line_worker(analysis: Analysis, spec) -> dict:
     return {"fam": fam, "flavour": flavour, "qual": m.qual, "cls": ctx.protocol, "rows": rows}
 
 
+def _result_key(call_event):
+    """Key of the value an external / unknown callable returned at this call event (the interpreter names results
+    after the call site)."""
+    return ("u", f"res:{(call_event.func, call_event.line)!r}")
+
+
 def add_job_worker(analysis: Analysis, flavour: str) -> dict:
     ctx = analysis.context(analysis.versions[-1], "serial", flavour)
     it = analysis.new_interp(ctx)
@@ -112,8 +118,8 @@ def add_job_worker(analysis: Analysis, flavour: str) -> dict:
         run_args_ok = all(len(s.events[i].args) == 1 and s.events[i].args[0].key() == arg.key() for i in runs)
         sends = [(i, e) for i, e in enumerate(s.events) if e.kind == "opaque" and e.name in SEND_QUALS]
         pair_ok = len(appends) == 1 and appends[0].kind == "append" and isinstance(appends[0].args[0], TupleV) and len(appends[0].args[0].items) == 2 and appends[0].args[0].items[0].key() == f.key() and isinstance(appends[0].args[0].items[1], TupleV) and [x.key() for x in appends[0].args[0].items[1].items] == [arg.key()]
-        send_ok = len(sends) == 1 and len(runs) == 1 and runs[0] < sends[0][0] and sends[0][1].args and sends[0][1].args[0].key() == trkey and len(sends[0][1].args) > 1 and "run_job" in repr(sends[0][1].args[1].key())
-        reply_falsy = any(f[0] in ("falsy", "isnone") and "run_job" in repr(f[1]) for f in s.facts)
+        send_ok = len(sends) == 1 and len(runs) == 1 and runs[0] < sends[0][0] and sends[0][1].args and sends[0][1].args[0].key() == trkey and len(sends[0][1].args) > 1 and sends[0][1].args[1].key() == _result_key(s.events[runs[0]])
+        reply_falsy = bool(runs) and any(f[0] in ("falsy", "isnone") and f[1] == _result_key(s.events[runs[0]]) for f in s.facts)
         if not sends and reply_falsy and len(runs) == 1:
             send_ok = True  # an empty reply need not be handed to send (send ignores it)
         # the test "am I called from the pump thread?" (threaded flavour): current_thread() is <attribute of tasks>
@@ -157,9 +163,11 @@ def pump_worker(analysis: Analysis, _spec) -> dict:
             continue  # totality of the pump is C01-R1
         pending = None  # a popped job not yet run / sent
         state = "idle"
+        last_run = None
+        falsy_keys = {f[1] for f in s.facts if f[0] in ("falsy", "isnone")}
         for e in s.events:
             if e.kind in ("seqpop", "dictpop") and isinstance(e.recv, V) and e.recv.key() == qkey:
-                empty_reply = any(f[0] in ("falsy", "isnone") and "run_job" in repr(f[1]) for f in s.facts)
+                empty_reply = last_run is not None and _result_key(last_run) in falsy_keys
                 if state == "popped" or (state == "ran" and not empty_reply):
                     problems.append(("a second job is popped before the previous one was run and its reply sent", out))
                 if e.name != "popleft":
@@ -168,10 +176,11 @@ def pump_worker(analysis: Analysis, _spec) -> dict:
                 n_jobs += 1
             elif e.kind == "call" and e.name == "?callable" and state == "popped" and "job0" in repr(e.recv.key() if isinstance(e.recv, V) else ""):
                 state = "ran"
+                last_run = e
             elif e.kind == "opaque" and e.name in SEND_QUALS:
                 reply = e.args[1] if len(e.args) > 1 else None
                 if state == "ran":
-                    if not (isinstance(reply, V) and "run_job" in repr(reply.key())):
+                    if not (isinstance(reply, V) and last_run is not None and reply.key() == _result_key(last_run)):
                         problems.append(("the pump sends something other than the reply of the job it just ran", out))
                     state = "idle"
                 elif state == "popped":
@@ -180,7 +189,7 @@ def pump_worker(analysis: Analysis, _spec) -> dict:
                 else:
                     if not (isinstance(reply, Const) and reply.value is None):
                         problems.append(("the pump sends a reply although no job was run", out))
-        if state == "ran" and kind == "val" and not any(f[0] in ("falsy", "isnone") and "run_job" in repr(f[1]) for f in s.facts):
+        if state == "ran" and kind == "val" and not (last_run is not None and _result_key(last_run) in falsy_keys):
             problems.append(("the reply of the last job is never sent", out))
     return {"paths": len(outs), "jobs": n_jobs, "problems": [(p, describe_path(o, 16)) for p, o in problems[:4]]}
 
